@@ -180,6 +180,39 @@ class Check(object):
         return 0
 
 
+class RepoCrash(Exception):
+    """An exception that was raised from inside the repository's code while a check worker ran."""
+
+
+def _repo_root():
+    return os.path.abspath(os.environ.get("VERIF_REPO", "/repo")) + os.sep
+
+
+def touches_repo(tb):
+    import traceback
+
+    root = _repo_root()
+    return any(os.path.abspath(fr.filename).startswith(root) for fr in traceback.extract_tb(tb))
+
+
+class _Guard(object):
+    """Wraps a worker function: an uncaught exception that passed through repository code comes back as RepoCrash
+    (so the runner can report it as a violation with the trace), anything else is a harness failure."""
+
+    def __init__(self, fn):
+        self.fn = fn
+
+    def __call__(self, x):
+        try:
+            return self.fn(x)
+        except Exception as e:
+            import traceback
+
+            if touches_repo(e.__traceback__):
+                raise RepoCrash("%s: %s | item %r | %s" % (type(e).__name__, str(e)[:200], repr(x)[:300], "".join(traceback.format_tb(e.__traceback__)[-4:])[-900:]))
+            raise
+
+
 def pool_map(fn, items, procs=None, chunksize=1):
     """Ordered parallel map over long-lived worker processes (fork; numba JIT paid once)."""
     import multiprocessing as mp
@@ -198,6 +231,7 @@ def pool_imap(fn, items, procs=None, chunksize=1, ordered=False):
 
     items = list(items)
     procs = procs or min(16, os.cpu_count() or 1, max(1, len(items)))
+    fn = _Guard(fn)
     if procs <= 1 or len(items) <= 1:
         for x in items:
             yield fn(x)
